@@ -62,6 +62,9 @@ Qed.
 Lemma seg_length {A} off n (buf : list A) : off + n <= length buf -> length (seg off n buf) = n.
 Proof. intros. unfold seg. rewrite firstn_length, skipn_length. lia. Qed.
 
+Lemma split_len {A} (v : list A) a b : length v = a + b -> exists v1 v2, v = v1 ++ v2 /\ length v1 = a /\ length v2 = b.
+Proof. intros E. exists (firstn a v), (skipn a v). rewrite firstn_skipn, firstn_length, skipn_length. repeat split; lia. Qed.
+
 Lemma nth_lupd_same {A} (l : list A) i x dflt : i < length l -> nth i (lupd i x l) dflt = x.
 Proof. revert i. induction l; intros [|i] Hi; cbn in *; try lia; auto. apply IHl. lia. Qed.
 Lemma nth_lupd_other {A} (l : list A) i j x dflt : i <> j -> nth i (lupd j x l) dflt = nth i l dflt.
@@ -445,8 +448,6 @@ Section BackwardEq.
       unblk. cbn [concat app]. rewrite ?app_nil_r, <- ?app_assoc. reflexivity.
   Qed.
 
-  Lemma split_len (v : list R) a b : length v = a + b -> exists v1 v2, v = v1 ++ v2 /\ length v1 = a /\ length v2 = b.
-  Proof. intros E. exists (firstn a v), (skipn a v). rewrite firstn_skipn, firstn_length, skipn_length. repeat split; lia. Qed.
 
   (* the loop over t = t0+n-1 .. t0 : the adjoint recursion of Ocp.v on the stages t0 .. t0+n-1 *)
   Lemma g_backward_loop_eq : forall n t0 gpre gmid gpost qpre qmid qpost wx λN wc,
@@ -523,3 +524,160 @@ Section BackwardEq.
     rewrite app_nil_r. reflexivity.
   Qed.
 End BackwardEq.
+
+(* ================================================================== 4. masked Riccati: factor_masked / solve_masked *)
+Lemma put_put_same {A} (a b buf : list A) : length a = length b -> put 0 a (put 0 b buf) = put 0 a buf.
+Proof.
+  intros E. unfold put. cbn [firstn app Nat.add]. f_equal.
+  rewrite skipn_app, E. rewrite skipn_all. replace (length b - length b) with 0 by lia. reflexivity.
+Qed.
+
+Lemma mleft_app r a (X Y : list (list R)) : wfm r a X -> length Y = r -> mleft a (map2 (@app R) X Y) = X.
+Proof.
+  intros [LA WA]. revert r Y LA. induction X as [|x X IH]; intros r [|y Y] LA LB; cbn in *; try lia; auto.
+  unfold mleft in *. cbn. inversion WA; subst. f_equal.
+  - rewrite firstn_app, firstn_all. replace (length x - length x) with 0 by lia. cbn. apply app_nil_r.
+  - apply (IH H2 (length X)); auto.
+Qed.
+Lemma mright_app r a b (X Y : list (list R)) : wfm r a X -> wfm r b Y -> mright b (map2 (@app R) X Y) = Y.
+Proof.
+  intros [LA WA] [LB WB]. revert r Y LA LB WB. induction X as [|x X IH]; intros r [|y Y] LA LB WB; cbn in *; try lia; auto.
+  unfold mright in *. cbn. inversion WA; inversion WB; subst. f_equal.
+  - rewrite app_length. replace (length x + length y - length y) with (length x + 0) by lia.
+    rewrite skipn_app, skipn_all2 by lia. replace (length x + 0 - length x) with 0 by lia. reflexivity.
+  - apply (IH H2 (length X)); auto.
+Qed.
+
+Lemma map2_cons_vneg (r : list R) : forall X, map (fun row => vneg row) (map2 cons r X) = map2 cons (vneg r) (map (fun row => vneg row) X).
+Proof. induction r as [|a r IH]; intros [|x X]; cbn; try reflexivity. f_equal. apply IH. Qed.
+Lemma mT_mneg n : forall M : list (list R), mT n (map (fun r => vneg r) M) = mneg (mT n M).
+Proof.
+  induction M as [|r M IH]; cbn [map mT].
+  - unfold mneg. induction n; cbn; [reflexivity|]. f_equal. assumption.
+  - rewrite IH. unfold mneg. rewrite map2_cons_vneg. reflexivity.
+Qed.
+
+Section RiccatiEq.
+  Variable F : ocp_fns R.
+  Variable L : lqr_fns R.
+  Variable lsolve : list (list R) -> list R -> list R.
+  Variable d : dims.
+  Variables nx nu : nat.
+
+  (* the callables handed to factor_masked at stage i are those of the stage data st: AB(i) = [A B], Q / R / S add the (masked) blocks
+     into `out`, R_prod / S_prod add the products with the fixed inputs, q, r, u, J, K return the vectors / index sets *)
+  Definition ops_match (i : nat) (st : lq_stage R) : Prop :=
+    lf_AB L i = map2 (@app R) (sA st) (sB st) /\
+    (forall M, lf_R L i (sJ st) M = madd M (selcols (sJ st) (selrows (sJ st) (sR st)))) /\
+    (forall M, lf_S L i (sJ st) M = madd M (selrows (sJ st) (sS st))) /\
+    (forall v, lf_R_prod L i (sJ st) (sK st) (sfix st) v = vadd v (mv (selcols (sK st) (selrows (sJ st) (sR st))) (sel (sK st) (sfix st)))) /\
+    (forall v, lf_S_prod L i (sK st) (sfix st) v = vadd v (mtv nx (selrows (sK st) (sS st)) (sel (sK st) (sfix st)))) /\
+    (forall M, lf_Q L i M = madd M (sQ st)) /\
+    lf_q L i = sq st /\ lf_r L i = sr st /\ lf_u L i = sfix st /\ lf_J L i = sJ st /\ lf_K L i = sK st.
+
+  (* the body of the stage loop of factor_masked = Ocp.factor_step (the gain is stored as the nJ x nx matrix K = (Kᵀ)ᵀ) *)
+  Lemma g_factor_masked_for1_step_eq i st chol P gK e s c y t PA :
+    ops_match i st -> wf_stage nx nu st -> wfm nx nx P -> length s = nx -> solves lsolve (oRbar (factor_step lsolve nx st P s)) ->
+    i < length gK -> i < length e ->
+    g_factor_masked_for1_step F L lsolve d nx nu chol P gK e s c y t PA i
+    = (let o := factor_step lsolve nx st P s in
+       ((if 0 <? i then oP o else P), lupd i (mT (length (sJ st)) (oKT o)) gK, lupd i (oe o) e, (if 0 <? i then os o else s),
+        mv (selcols (sK st) (sB st)) (sel (sK st) (sfix st)), oy o, put 0 (ot o) t, mm nx P (sA st))).
+  Proof.
+    intros (HAB & HR & HS & HRp & HSp & HQ & Hq & Hr & Hu & HJ & HK) Hst HP Hs Hsol LgK Le.
+    pose proof Hst as (WA & WB & _).
+    unfold g_factor_masked_for1_step. rewrite HAB, Hu, HJ, HK, Hr, Hq.
+    rewrite (mleft_app nx nx) by (auto; apply WB). rewrite (mright_app nx nx nu) by auto.
+    set (o := factor_step lsolve nx st P s) in *.
+    set (J := sJ st) in *. set (K := sK st) in *. set (nJ := length J).
+    set (BJ := selcols J (sB st)). set (cc := mv (selcols K (sB st)) (sel K (sfix st))).
+    set (t1 := mtv nJ BJ (vadd (mv P cc) s)).
+    set (t2 := vadd t1 (sel J (sr st))).
+    assert (Lt1 : length t1 = nJ) by (apply mtv_length; apply (wBJ nx nu st Hst)).
+    assert (Lt2 : length t2 = nJ) by (apply vadd_length_n; [exact Lt1 | apply sel_length]).
+    assert (Et3 : vadd t2 (mv (selcols K (selrows J (sR st))) (sel K (sfix st))) = ot o) by reflexivity.
+    pose proof (lt_ lsolve nx nu st P s Hst) as Lt3. fold o J nJ in Lt3.
+    cbv zeta.
+    rewrite (seg_put_same 0 t1 t nJ) by (lia || auto). fold t2.
+    rewrite (put_put_same t2 t1 t) by lia.
+    rewrite (seg_put_same 0 t2 t nJ) by (lia || auto).
+    rewrite HRp, Et3. rewrite (put_put_same (ot o) t2 t) by lia.
+    rewrite (seg_put_same 0 (ot o) t nJ) by (lia || auto).
+    rewrite HR, HS.
+    change (madd (mm nJ (mT nJ BJ) (mm nJ P BJ)) (selcols J (selrows J (sR st)))) with (oRbar o).
+    change (madd (mm nx (mT nJ BJ) (mm nx P (sA st))) (selrows J (sS st))) with (oSbar o).
+    assert (EK : mneg (msolve lsolve nJ nx (oRbar o) (oSbar o)) = mT nJ (oKT o)).
+    { unfold msolve. rewrite <- mT_mneg, map_map. reflexivity. }
+    assert (Ee : vneg (lsolve (oRbar o) (ot o)) = oe o) by reflexivity.
+    assert (EP : mm nx (mT nx (oSbar o)) (mT nJ (oKT o)) = map (fun ca => mv (oKT o) ca) (mT nx (oSbar o))).
+    { unfold mm. apply map_ext_in. intros ca Hca. apply (mtv_mT nx nJ).
+      - apply (wKT lsolve nx nu st P s Hst HP Hsol).
+      - pose proof (wcols lsolve nx nu st P s Hst HP) as [_ Wc]. rewrite Forall_forall in Wc. apply Wc. exact Hca. }
+    replace (if chol
+             then (lupd i (msolve lsolve nJ nx (oRbar o) (oSbar o)) gK, lupd i (lsolve (oRbar o) (ot o)) e)
+             else (lupd i (msolve lsolve nJ nx (oRbar o) (oSbar o)) gK, lupd i (lsolve (oRbar o) (ot o)) e))
+      with (lupd i (msolve lsolve nJ nx (oRbar o) (oSbar o)) gK, lupd i (lsolve (oRbar o) (ot o)) e) by (destruct chol; reflexivity).
+    cbv beta iota zeta.
+    rewrite !(nth_lupd_same gK i), !(nth_lupd_same e i) by assumption. rewrite !lupd_lupd.
+    rewrite !(nth_lupd_same gK i), !(nth_lupd_same e i) by assumption.
+    rewrite EK, Ee, EP, HQ, HSp. destruct (0 <? i); reflexivity.
+  Qed.
+
+  Lemma mod2_cases i : (i mod 2 = 0 /\ S i mod 2 = 1) \/ (i mod 2 = 1 /\ S i mod 2 = 0).
+  Proof.
+    pose proof (Nat.div_mod i 2). pose proof (Nat.div_mod (S i) 2).
+    pose proof (Nat.mod_upper_bound i 2). pose proof (Nat.mod_upper_bound (S i) 2). lia.
+  Qed.
+
+  (* what solve_masked needs of stage i: the system matrices, the index set, and the gain / feed-forward slots factor_masked left *)
+  Definition solve_match (i : nat) (st : lq_stage R) (g : gain R) (gK : list (list (list R))) (e : list (list R)) : Prop :=
+    lf_AB L i = map2 (@app R) (sA st) (sB st) /\ lf_J L i = sJ st /\
+    nth i gK [] = mT (length (sJ st)) (gKT g) /\ nth i e [] = ge g /\ wfm nx (length (sJ st)) (gKT g) /\ i < length e.
+
+  (* the body of the stage loop of solve_masked: Δu = [upre | fixed values of stage i | upost], Δx a 2 nx buffer holding δx_i in half i mod 2 *)
+  Lemma g_solve_masked_for1_step_eq i st g gK e upre upost Δx δx :
+    solve_match i st g gK e -> wf_stage nx nu st -> length upre = i * nu ->
+    length Δx = 2 * nx -> seg ((i mod 2) * nx) nx Δx = δx ->
+    exists Δx',
+      g_solve_masked_for1_step F L lsolve d nx nu gK (upre ++ sfix st ++ upost) Δx e i
+      = (let e' := vadd (ge g) (mtv (length (sJ st)) (gKT g) δx) in
+         (upre ++ scatter (sJ st) e' (sfix st) ++ upost, Δx', lupd i e' e)) /\
+      length Δx' = 2 * nx /\
+      seg ((S i mod 2) * nx) nx Δx' = (let e' := vadd (ge g) (mtv (length (sJ st)) (gKT g) δx) in
+                                       vadd (mv (sA st) δx) (mv (sB st) (scatter (sJ st) e' (sfix st)))).
+  Proof.
+    intros (HAB & HJ & HgK & He & WK & Li) Hst Lup LΔx Hδ.
+    pose proof Hst as (WA & WB & _ & _ & _ & _ & _ & Lfix & _).
+    unfold g_solve_masked_for1_step. rewrite HAB, HJ.
+    rewrite (mleft_app nx nx) by (auto; apply WB). rewrite (mright_app nx nx nu) by auto.
+    cbv zeta. rewrite Hδ, HgK, He. rewrite (nth_lupd_same e i) by exact Li.
+    rewrite (mv_mT nx (length (sJ st))) by exact WK.
+    set (e' := vadd (ge g) (mtv (length (sJ st)) (gKT g) δx)).
+    set (U0 := [upre; sfix st; upost]).
+    assert (EU : upre ++ sfix st ++ upost = concat U0) by (cbn; rewrite app_nil_r; reflexivity).
+    rewrite EU. rd 1 U0. cbn [nth U0].
+    set (Δu := scatter (sJ st) e' (sfix st)).
+    assert (LΔu : length Δu = nu) by (unfold Δu; rewrite scatter_length; exact Lfix).
+    wr 1 U0. cbn [lupd U0]. set (U1 := [upre; Δu; upost]). rd 1 U1. cbn [nth U1].
+    assert (Lδ : length δx = nx) by (rewrite <- Hδ; apply seg_length; pose proof (Nat.mod_upper_bound i 2); nia).
+    assert (LA : length (mv (sA st) δx) = nx) by (rewrite mv_length; apply WA).
+    assert (LB : length (mv (sB st) Δu) = nx) by (rewrite mv_length; apply WB).
+    assert (Lnew : length (vadd (mv (sA st) δx) (mv (sB st) Δu)) = nx) by (apply vadd_length_n; assumption).
+    destruct (split_len Δx nx nx) as (h0 & h1 & -> & Lh0 & Lh1); [lia|].
+    set (X0 := [h0; h1]). assert (EX : h0 ++ h1 = concat X0) by (cbn; rewrite app_nil_r; reflexivity).
+    rewrite EX.
+    destruct (mod2_cases i) as [[E0 E1]|[E0 E1]]; rewrite E1.
+    - assert (EΔ : put (1 * nx) (vadd (seg (1 * nx) nx (put (1 * nx) (mv (sA st) δx) (concat X0))) (mv (sB st) Δu))
+                       (put (1 * nx) (mv (sA st) δx) (concat X0)) = h0 ++ vadd (mv (sA st) δx) (mv (sB st) Δu)).
+      { wr 1 X0. cbn [lupd X0]. set (X1 := [h0; mv (sA st) δx]). rd 1 X1. cbn [nth X1]. wr 1 X1. cbn [lupd X1 concat]. rewrite app_nil_r. reflexivity. }
+      rewrite EΔ. eexists. split; [unblk; cbn [concat app]; rewrite ?app_nil_r; reflexivity|]. split.
+      + rewrite app_length. lia.
+      + replace (1 * nx) with (length h0 + 0) by lia. rewrite seg_app_skip. unfold seg. cbn [skipn]. rewrite <- Lnew. apply firstn_all.
+    - assert (EΔ : put (0 * nx) (vadd (seg (0 * nx) nx (put (0 * nx) (mv (sA st) δx) (concat X0))) (mv (sB st) Δu))
+                       (put (0 * nx) (mv (sA st) δx) (concat X0)) = vadd (mv (sA st) δx) (mv (sB st) Δu) ++ h1).
+      { wr 0 X0. cbn [lupd X0]. set (X1 := [mv (sA st) δx; h1]). rd 0 X1. cbn [nth X1]. wr 0 X1. cbn [lupd X1 concat]. rewrite app_nil_r. reflexivity. }
+      rewrite EΔ. eexists. split; [unblk; cbn [concat app]; rewrite ?app_nil_r; reflexivity|]. split.
+      + rewrite app_length. lia.
+      + cbn [Nat.mul]. rewrite <- Lnew. apply seg_0_app.
+  Qed.
+End RiccatiEq.
